@@ -24,6 +24,10 @@ TrBridge ==
     /\ Chk("C11", "response_reaches_the_caller_intact", l,
            E.verdict = "ok" => E.out = E.in)           \* sub-messages (order, id, payload, gas, trigger, message), attributes, events, data
     /\ Chk("C11", "no_partial_response_on_failure", l, E.verdict # "ok" => Len(E.out.msgs) = 0)
+    \* C02, on the dispatch of a contract with chain-custom types: the caller gets the handler's response untouched, the handler the caller's context
+    /\ Chk("C02", "caller_gets_the_handlers_own_response_untouched", l, (E.via # "direct" /\ E.verdict = "ok") => E.out = E.in)
+    /\ Chk("C02", "handler_ran_exactly_once_with_the_callers_context", l,
+           E.via \in {"exec", "sudo", "qexec", "qsudo"} => (Len(E.seen) = 1 /\ CtxSame(E.seen[1], E.env, E.via \in {"exec", "qexec"})))
     \* via: "exec"/"sudo" through a contract with custom message and query types, "qexec"/"qsudo" through one with a custom query type only
     /\ IF E.via \in {"exec", "sudo", "qexec", "qsudo"}
        THEN /\ Chk("C11", "bridged_handler_ran_once_with_the_callers_context", l,
